@@ -360,3 +360,115 @@ pub fn interpolate_f64_rec(a: f64, b: f64, amount: f64) -> f64 {
     }
     r
 }
+
+pub static mut EA_N: usize = 0;
+pub static mut EA_X: [f64; REC] = [0.0; REC];
+pub static mut EA_RET: [f64; REC] = [0.0; REC];
+
+/// Recording stand-in for `Easing::apply(&self, x)` (contract C19.7: [0,1] -> [0,1], 0 -> 0, 1 -> 1).
+pub fn easing_apply_rec(_this: &crate::Easing, x: f64) -> f64 {
+    let r = any_f64_in(0.0, 1.0);
+    kani::assume(x != 0.0 || r == 0.0);
+    kani::assume(x != 1.0 || r == 1.0);
+    unsafe {
+        if EA_N < REC { EA_X[EA_N] = x; EA_RET[EA_N] = r; }
+        EA_N += 1;
+    }
+    r
+}
+
+// ---------------------------------------------------------------------------------------------------------------
+// probe Sound / Effect implementations for object-level harnesses
+// ---------------------------------------------------------------------------------------------------------------
+pub const NPROBE: usize = 4;
+pub static mut PS_START: [usize; NPROBE] = [0; NPROBE];
+pub static mut PS_CALLS: [usize; NPROBE] = [0; NPROBE];
+pub static mut PS_FRAMES: [usize; NPROBE] = [0; NPROBE];
+pub static mut PS_MAXLEN: [usize; NPROBE] = [0; NPROBE];
+pub static mut PS_DT: [f64; NPROBE] = [0.0; NPROBE];
+pub static mut PS_FINISHED: [bool; NPROBE] = [false; NPROBE];
+pub static mut PS_DROPS: [usize; NPROBE] = [0; NPROBE];
+
+/// A sound that overwrites its output slice with a constant frame and counts how it is driven.
+pub struct ProbeSound {
+    pub id: usize,
+    pub value: crate::Frame,
+}
+
+impl crate::sound::Sound for ProbeSound {
+    fn on_start_processing(&mut self) { unsafe { PS_START[self.id] += 1; } }
+    fn process(&mut self, out: &mut [crate::Frame], dt: f64, _info: &crate::info::Info) {
+        unsafe {
+            PS_CALLS[self.id] += 1;
+            PS_FRAMES[self.id] += out.len();
+            if out.len() > PS_MAXLEN[self.id] { PS_MAXLEN[self.id] = out.len(); }
+            PS_DT[self.id] = dt;
+        }
+        let mut i = 0;
+        while i < out.len() { out[i] = self.value; i += 1; }
+    }
+    fn finished(&self) -> bool { unsafe { PS_FINISHED[self.id] } }
+}
+
+impl Drop for ProbeSound {
+    fn drop(&mut self) { unsafe { PS_DROPS[self.id] += 1; } }
+}
+
+pub static mut PE_CALLS: [usize; NPROBE] = [0; NPROBE];
+pub static mut PE_FRAMES: [usize; NPROBE] = [0; NPROBE];
+pub static mut PE_RATE: [u32; NPROBE] = [0; NPROBE];
+pub static mut PE_START: [usize; NPROBE] = [0; NPROBE];
+pub static mut PE_ORDER: [usize; NPROBE] = [0; NPROBE];
+pub static mut PE_TICK: usize = 0;
+
+/// An effect that scales by an exact power of two (default 0.5) and then adds `add` to the left channel,
+/// so that the ORDER of two probe effects is observable: (x*g1 + a1)*g2 + a2.
+pub struct ProbeEffect {
+    pub id: usize,
+    pub gain: f32,
+    pub add: f32,
+}
+
+impl crate::effect::Effect for ProbeEffect {
+    fn init(&mut self, sample_rate: u32, _internal_buffer_size: usize) { unsafe { PE_RATE[self.id] = sample_rate; } }
+    fn on_change_sample_rate(&mut self, sample_rate: u32) { unsafe { PE_RATE[self.id] = sample_rate; } }
+    fn on_start_processing(&mut self) { unsafe { PE_START[self.id] += 1; } }
+    fn process(&mut self, input: &mut [crate::Frame], _dt: f64, _info: &crate::info::Info) {
+        unsafe {
+            PE_CALLS[self.id] += 1;
+            PE_FRAMES[self.id] += input.len();
+            PE_TICK += 1;
+            PE_ORDER[self.id] = PE_TICK;
+        }
+        let mut i = 0;
+        while i < input.len() {
+            input[i] = crate::Frame::new(input[i].left * self.gain + self.add, input[i].right * self.gain);
+            i += 1;
+        }
+    }
+}
+
+/// a sample on the dyadic grid k/8, |k| <= 16 (sums and power-of-two scalings of a few such values are exact in f32)
+pub fn grid_sample() -> f32 {
+    let k: i8 = kani::any();
+    kani::assume(k >= -16 && k <= 16);
+    k as f32 / 8.0
+}
+pub fn grid_frame() -> crate::Frame { crate::Frame::new(grid_sample(), grid_sample()) }
+
+pub static mut IP32_N: usize = 0;
+pub static mut IP32_A: [f32; REC] = [0.0; REC];
+pub static mut IP32_B: [f32; REC] = [0.0; REC];
+pub static mut IP32_T: [f64; REC] = [0.0; REC];
+pub static mut IP32_RET: [f32; REC] = [0.0; REC];
+
+/// Recording stand-in for `<f32 as Tweenable>::interpolate(a, b, amount)`.
+pub fn interpolate_f32_rec(a: f32, b: f32, amount: f64) -> f32 {
+    let r: f32 = kani::any();
+    kani::assume(r.is_finite());
+    unsafe {
+        if IP32_N < REC { IP32_A[IP32_N] = a; IP32_B[IP32_N] = b; IP32_T[IP32_N] = amount; IP32_RET[IP32_N] = r; }
+        IP32_N += 1;
+    }
+    r
+}
